@@ -16,6 +16,7 @@
  *     32 node->hash stale   64 red-black tree / lyds metadata   128 ids of the table not all reachable
  */
 #include <assert.h>
+#include <ctype.h>
 #include <unistd.h>
 #include <signal.h>
 #include "proto.h"
@@ -1235,29 +1236,20 @@ rbs_show(struct lyd_node *c, const struct lysc_node *ll)
     LY_LIST_FOR(lyd_child(c), n) if (n->schema == ll) fprintf(stdout, " %s:%d", lyd_get_value(n), rbs_serial(n));
 }
 
+/* run an rbs script inside container `c` (created by the caller); prints the state after every op when `show` */
 static void
-rbs_op(const char *id, char *script)
+rbs_run(struct lyd_node *c, const struct lysc_node *ll, char *script, int show)
 {
-    const struct lysc_node *cont = NULL, *ll = NULL, *s = NULL;
-    struct lyd_node *c = NULL, *n, *nw;
+    struct lyd_node *n, *nw;
     char *k[4096];
     int nk, i, j, idx;
 
-    for (i = 0; i < cur->nsn && !cont; i++) {
-        if (cur->sparent[i] < 0 && cur->snode[i]->nodetype == LYS_CONTAINER) cont = cur->snode[i];
-    }
-    while (cont && (s = lys_getnext(s, cont, NULL, 0))) {
-        if (s->nodetype == LYS_LEAFLIST && (s->flags & LYS_ORDBY_SYSTEM) && !strcmp(ktype_of(s), "i32")) { ll = s; break; }
-    }
-    if (!ll || lyd_new_inner(NULL, cont->module, cont->name, 0, &c)) { vp_reply(id, "err NoList"); return; }
-    rbs_n = 0;
     nk = split(script, ',', k, 4096);
-    fprintf(stdout, "%s ok", id);
     for (i = 0; i < nk; i++) {
         if (!k[i][0]) continue;
         if (k[i][0] == 'i') {
             nw = NULL;
-            if (rbs_n >= 4096 || lyd_new_term(c, ll->module, ll->name, k[i] + 1, 0, &nw) || !nw) { fputs(" | R:BadKey", stdout); continue; }
+            if (rbs_n >= 4096 || lyd_new_term(c, ll->module, ll->name, k[i] + 1, 0, &nw) || !nw) { if (show) fputs(" | R:BadKey", stdout); continue; }
             rbs_tab[rbs_n++] = nw;
         } else if (k[i][0] == 'u' || k[i][0] == 'm') {
             idx = atoi(k[i] + 1);
@@ -1267,24 +1259,95 @@ rbs_op(const char *id, char *script)
                 if (n->schema != ll) continue;
                 if (j++ == idx) { nw = n; break; }
             }
-            if (!nw || !isdigit((unsigned char)k[i][1])) { fputs(" | R:NoInst", stdout); continue; }
+            if (!nw || !isdigit((unsigned char)k[i][1])) { if (show) fputs(" | R:NoInst", stdout); continue; }
             if (k[i][0] == 'u') {
                 j = rbs_serial(nw);
                 lyd_free_tree(nw);
                 if (j >= 0) rbs_tab[j] = NULL;
             } else {
                 lyd_unlink_tree(nw);
-                if (lyd_insert_child(c, nw)) { fputs(" | R:InsertFailed", stdout); lyd_free_tree(nw); continue; }
+                if (lyd_insert_child(c, nw)) { if (show) fputs(" | R:InsertFailed", stdout); lyd_free_tree(nw); continue; }
             }
         } else {
-            fputs(" | R:BadOp", stdout);
+            if (show) fputs(" | R:BadOp", stdout);
             continue;
         }
-        rbs_show(c, ll);
+        if (show) rbs_show(c, ll);
     }
+}
+
+static const struct lysc_node *
+rbs_schema(const struct lysc_node **cont_p)
+{
+    const struct lysc_node *cont = NULL, *ll = NULL, *s = NULL;
+
+    for (int i = 0; i < cur->nsn && !cont; i++) {
+        if (cur->sparent[i] < 0 && cur->snode[i]->nodetype == LYS_CONTAINER) cont = cur->snode[i];
+    }
+    while (cont && (s = lys_getnext(s, cont, NULL, 0))) {
+        if (s->nodetype == LYS_LEAFLIST && (s->flags & LYS_ORDBY_SYSTEM) && !strcmp(ktype_of(s), "i32")) { ll = s; break; }
+    }
+    *cont_p = cont;
+    return ll;
+}
+
+static void
+rbs_op(const char *id, char *script)
+{
+    const struct lysc_node *cont, *ll = rbs_schema(&cont);
+    struct lyd_node *c = NULL;
+
+    if (!ll || lyd_new_inner(NULL, cont->module, cont->name, 0, &c)) { vp_reply(id, "err NoList"); return; }
+    rbs_n = 0;
+    fprintf(stdout, "%s ok", id);
+    rbs_run(c, ll, script, 1);
     fputc('\n', stdout);
     fflush(stdout);
     lyd_free_all(c);
+}
+
+/* `rbm <dst script> <src script>`: two containers are filled by rbs scripts; then ALL instances of the second (a leading `D`
+ * in the source script: a lyd_dup_siblings() copy of them, which has no sorting tree) are moved into the first in one call
+ * (lyd_unlink_siblings + lyd_insert_child of a node with siblings -> lyd_move_nodes -> lyds_merge; a single source
+ * instance goes through lyd_insert_node). */
+static void
+rbm_op(const char *id, char *dscript, char *sscript)
+{
+    const struct lysc_node *cont, *ll = rbs_schema(&cont);
+    struct lyd_node *a = NULL, *b = NULL, *first, *dup = NULL, *o, *d;
+    int dupmode = sscript[0] == 'D';
+
+    if (!ll || lyd_new_inner(NULL, cont->module, cont->name, 0, &a) || lyd_new_inner(NULL, cont->module, cont->name, 0, &b)) {
+        lyd_free_all(a);
+        vp_reply(id, "err NoList");
+        return;
+    }
+    rbs_n = 0;
+    rbs_run(a, ll, dscript, 0);
+    rbs_run(b, ll, sscript + dupmode, 0);
+    first = lyd_child(b);
+    if (!first || !lyd_child(a)) { lyd_free_all(a); lyd_free_all(b); vp_reply(id, "err Empty"); return; }
+    if (dupmode) {
+        if (lyd_dup_siblings(first, NULL, 0, &dup) || !dup) { lyd_free_all(a); lyd_free_all(b); vp_reply(id, "err Dup"); return; }
+        for (o = first, d = dup; o && d; o = o->next, d = d->next) {
+            int j = rbs_serial(o);
+            if (j >= 0) rbs_tab[j] = d;
+        }
+        first = dup;
+    } else if (lyd_unlink_siblings(first)) {
+        lyd_free_all(a); lyd_free_all(b); vp_reply(id, "err Unlink"); return;
+    }
+    fprintf(stdout, "%s ok", id);
+    if (lyd_insert_child(a, first)) {
+        fputs(" | R:InsertFailed", stdout);
+        lyd_free_siblings(first);
+    } else {
+        rbs_show(a, ll);
+    }
+    fputc('\n', stdout);
+    fflush(stdout);
+    lyd_free_all(a);
+    lyd_free_all(b);
 }
 #endif
 
@@ -1328,6 +1391,17 @@ sib_main(void)
             cur = get_ctx(r.tok[5]);
             if (!cur) { vp_reply(id, "err BadSchema"); continue; }
             rbs_op(id, r.tok[6]);
+#else
+            vp_reply(id, "err NoWb");
+#endif
+            continue;
+        }
+        if (r.ntok == 8 && !strcmp(r.tok[1], "sib") && !strcmp(r.tok[2], "rbm")) {
+            /* rbm <variant> <desc> <yang> <dst script> <src script>: bulk move of a (leaf-)list onto another (lyds_merge) */
+#ifdef SIB_WB
+            cur = get_ctx(r.tok[5]);
+            if (!cur) { vp_reply(id, "err BadSchema"); continue; }
+            rbm_op(id, r.tok[6], r.tok[7]);
 #else
             vp_reply(id, "err NoWb");
 #endif
